@@ -11,6 +11,7 @@ import (
 	"encoding/hex"
 	"encoding/json"
 	"fmt"
+	"github.com/hneemann/parser2/funcGen"
 	"math/rand"
 	"os"
 	"os/exec"
@@ -1759,6 +1760,74 @@ func (h *c3H) corpus() {
 	}
 }
 
+// generatorRoutes: the operator table of a parser may also be declared through a funcGen.FunctionGenerator, whose
+// AddOpBehind inserts an operator behind another one. Whatever the sequence of AddOp/AddOpBehind calls, the priority
+// list handed to the parser is the intended one (and the parser built from it groups accordingly).
+func (h *c3H) generatorRoutes() {
+	c := h.c
+	tables := [][]string{{"+", "*"}, {"+", "-", "*"}, {"|", "&", "=", "+", "-", "*", "/", "^"}, {"<", "+", "*", "^", "%"}, {"+", "-", "*", "/", "^", "=", "<"}}
+	impl := funcGen.OperatorFunc[float64](func(st funcGen.Stack[float64], a, b float64) (float64, error) { return a + b, nil })
+	for _, ops := range tables {
+		for route := 0; route < 4; route++ {
+			g := funcGen.New[float64]()
+			behind := func(b, o string) { g.AddOpBehind(b, o, false, impl, true) }
+			switch route {
+			case 1: // the first, then the others from last to second, each behind the first
+				behind("", ops[0])
+				for i := len(ops) - 1; i >= 1; i-- {
+					behind(ops[0], ops[i])
+				}
+			case 2: // even positions in order, then each odd one behind its predecessor
+				for i := 0; i < len(ops); i += 2 {
+					behind("", ops[i])
+				}
+				for i := 1; i < len(ops); i += 2 {
+					behind(ops[i-1], ops[i])
+				}
+			case 3: // all but the last two, then the last, then the one before it behind its predecessor
+				for i := 0; i < len(ops); i++ {
+					if i != len(ops)-2 || len(ops) < 3 {
+						behind("", ops[i])
+					}
+				}
+				if len(ops) >= 3 {
+					behind(ops[len(ops)-3], ops[len(ops)-2])
+				}
+			default:
+				for _, o := range ops {
+					behind("", o)
+				}
+			}
+			var got []string
+			for _, o := range g.VerifOperators() {
+				got = append(got, o.Operator)
+			}
+			c.Case(fmt.Sprintf("generator-route|%v|%d", ops, route), true)
+			c.Count("stream=generator-routes")
+			if strings.Join(got, " ") != strings.Join(ops, " ") {
+				c.Violation("generator-table-order", "the operator table declared through AddOp/AddOpBehind is not the intended priority list",
+					map[string]any{"intended": ops, "registered": got, "route": route})
+				continue
+			}
+			// the parser the generator builds uses that list: a two-operator expression groups by it
+			g.SetOptimizer(nil)
+			ids := g.Identifier().Add("a").Add("b").Add("c")
+			for i := 0; i+1 < len(ops); i++ {
+				lo, hi := ops[i], ops[i+1]
+				ast, err := g.GetParser().Parse("a"+lo+"b"+hi+"c", ids)
+				if err != nil {
+					c.Violation("generator-table-order", "a parser built by the generator rejects a valid expression: "+err.Error(), map[string]any{"intended": ops, "route": route, "text": "a" + lo + "b" + hi + "c"})
+					break
+				}
+				if op, ok := ast.(*parser2.Operate); !ok || op.Operator != lo {
+					c.Violation("generator-table-order", "a parser built by the generator groups against the declared priorities", map[string]any{"intended": ops, "route": route, "text": "a" + lo + "b" + hi + "c", "ast": fmt.Sprint(ast)})
+					break
+				}
+			}
+		}
+	}
+}
+
 // targeted: operator core, exhaustive small trees over many small tables
 func (h *c3H) targeted() {
 	opss := [][]string{{"+"}, {"+", "*"}, {"+", "-", "*"}, {"<", "<=", "<<"}}
@@ -2313,6 +2382,7 @@ func runC03(c *Ctx) {
 	}
 	t0 := time.Now()
 	h.corpus()
+	h.generatorRoutes()
 	if len(c.BrokenObligs()) > 0 {
 		h.targeted()
 	}
